@@ -41,7 +41,8 @@ def main():
                          "--deselect tests/menelaus/utils/test_utils.py::test_find_root_dir "
                          "--deselect tests/menelaus/partitioners/test_nn_space_partitioner.py::test_nnsp_compute_nnps_distance_1 2>&1 | tail -3",
                          cwd=wt, timeout=1800)
-            res["suite"] = out.strip().splitlines()[-1] if out.strip() else ""
+            lines = [l for l in out.strip().splitlines() if " passed" in l or " failed" in l or " error" in l]
+            res["suite"] = lines[-1] if lines else (out.strip().splitlines()[-1] if out.strip() else "")
         os.remove(os.path.join(wt, "_demo.py"))
         for p in props:
             env = dict(os.environ, VERIF_REPO=wt, VERIF_OUT=wt + "_out")
